@@ -306,6 +306,21 @@ var logicalAlternatives = map[ssa.Instruction][]ssa.Instruction{}
 // chain is must in its caller, with the callee's error (if any) propagated as a
 // failure of the caller.
 func (w *Walker) chainMust(fr *Frame, site ssa.Instruction) bool {
+	r := w.chainMust0(fr, site)
+	if !r && os.Getenv("DEBUG_MUST") != "" && strings.Contains(w.cx.P.Pos(site.Pos()), os.Getenv("DEBUG_MUST")) {
+		fmt.Fprintf(os.Stderr, "chainMust false at %s: siteMust=%v chain=%s\n", w.cx.P.Pos(site.Pos()), siteMust(site), fr.String())
+		for f := fr; f != nil && f.Parent != nil; f = f.Parent {
+			if f.Call != nil {
+				fmt.Fprintf(os.Stderr, "   call %s: siteMust=%v errorPropagated=%v\n", w.cx.P.Pos(f.Call.Pos()), siteMust(f.Call), errorPropagated(f.Call))
+			} else {
+				fmt.Fprintf(os.Stderr, "   frame %s without call\n", shortFn(f.Fn))
+			}
+		}
+	}
+	return r
+}
+
+func (w *Walker) chainMust0(fr *Frame, site ssa.Instruction) bool {
 	if !siteMust(site) {
 		return false
 	}
